@@ -219,6 +219,9 @@ class CannotEvaluate(Exception):
     pass
 
 
+NONE_VALUE = Fraction(-987654321)     # stands for None in evaluated tables (`x is None`)
+
+
 def evaluate(x, env):
     """Exact value (Fraction, or the string 'nan') of a Rat/atom under env: atom -> Fraction.  Supports ite, abs,
     min, max, floordiv, int, sign; anything else must be bound in env."""
@@ -264,6 +267,25 @@ def _eval_atom(a, env):
             return Fraction(int(evaluate(a.args[0], env)))
         if a.name == 'bool':
             return Fraction(1 if eval_cond_full(a.args[0], env) else 0)
+        if a.name == 'none':
+            return NONE_VALUE
+        if a.name == 'is':
+            return Fraction(1 if evaluate(a.args[0], env) == evaluate(a.args[1], env) else 0)
+        if a.name == 'mod':
+            u, v = evaluate(a.args[0], env), evaluate(a.args[1], env)
+            if v == 0:
+                raise CannotEvaluate('modulo by zero')
+            return Fraction(u % v)
+        if a.name in ('BitAnd', 'BitOr', 'augBitAnd', 'augBitOr'):
+            u, v = evaluate(a.args[0], env), evaluate(a.args[1], env)
+            if u.denominator != 1 or v.denominator != 1:
+                raise CannotEvaluate('bit operation on a non-integer')
+            return Fraction(int(u) & int(v) if a.name.endswith('And') else int(u) | int(v))
+        hook = env.get('__read__') if isinstance(env, dict) else None
+        if hook is not None and a.name in ('read', 'cell?', 'getitem'):
+            # array contents supplied by the rule: hook(array key, index values) -> value (or raises CannotEvaluate)
+            idx = a.args[1:-1] if a.name == 'cell?' else a.args[1:]
+            return Fraction(hook(a.args[0], tuple(evaluate(i, env) for i in idx)))
         raise CannotEvaluate('uninterpreted %s' % a.name)
     raise CannotEvaluate(repr(a))
 
